@@ -32,9 +32,11 @@ enum Want {
 const BINOPS: [&str; 10] = ["*", "/", "juxt", "|", "+", "-", "mod", "hypot", "atan2", "list"];
 const COEFS: [(&str, i8); 4] = [("", 1), ("-2 ", -1), ("1|3 ", 1), ("0 ", 0)];
 const CPAIRS: [(usize, usize); 6] = [(0, 0), (1, 2), (2, 1), (3, 0), (0, 3), (3, 3)];
-const UNARY: [&str; 27] = [
+const UNARY: [&str; 32] = [
     "^-3", "^-2", "^-1", "^0", "^1", "^2", "^3", "^(1|2)", "^(1|3)", "^(2|3)", "sqrt", "neg", "sin", "cos",
     "tan", "asin", "acos", "atan", "exp", "ln", "log2", "log10", "log(x,2)", "log(2,x)", "^(0.5)", "^(3|1)", "sinh",
+    // the same exponents as machine floats (the result of a function): the algebra looks at the value
+    "^sqrt(4)", "^sqrt(0.25)", "^sqrt(2)", "^-sqrt(9)", "^(sqrt(4) - 2)",
 ];
 const TREEOPS: [&str; 5] = ["*", "/", " ", "+", "-"];
 
@@ -268,6 +270,21 @@ impl C02 {
                             if e < 0 && o.sign == 0 { Want::Refuse } else if e < 0 && o.sign == 2 { Want::Either(dd) } else { Want::Dims(dd) },
                         )
                     }
+                    "^sqrt(4)" | "^-sqrt(9)" | "^(sqrt(4) - 2)" => {
+                        let e: i64 = match k {
+                            "^sqrt(4)" => 2,
+                            "^-sqrt(9)" => -3,
+                            _ => 0,
+                        };
+                        let dd = dims_pow(&o.dims, e);
+                        // a float power of a float-valued or zero operand may be refused for its value
+                        (format!("({}){}", x, k), if (e < 0 && o.sign != 1) || o.sign == 2 { Want::Either(dd) } else { Want::Dims(dd) })
+                    }
+                    "^sqrt(0.25)" => (format!("({}){}", x, k), match root(2, 1) {
+                        Want::Dims(d) => Want::Either(d),
+                        w => w,
+                    }),
+                    "^sqrt(2)" => (format!("({}){}", x, k), if dl { Want::Open } else { Want::Refuse }),
                     "^(1|2)" | "^(0.5)" => (format!("{}{}", x, k), root(2, 1)),
                     "^(1|3)" => (format!("{}{}", x, k), root(3, 1)),
                     "^(2|3)" => (
@@ -466,7 +483,7 @@ impl Space for C02 {
         Meta {
             id: "C02",
             level: "exploration",
-            rule: "10 binary operators/functions (* / juxtaposition | + - mod hypot atan2 unit-list) x 6 coefficient pairs (a zero coefficient on either or both sides: adding nothing is still an addition) x all ordered pairs of one representative unit per distinct dimensionality of the registry (+ two quoted ad-hoc base units + a dimensionless operand); 27 unary/power/root/function applications x {1, -2} coefficient x every unit, base unit and long/prefixed/plural base-unit spelling; both depth-2 shapes x 5x5 operators over an 11-unit core; 6 trigonometric functions x 9 power/reciprocal/product forms (x^-3..x^3, x*x, 1/x, x x x) of every representative unit (an angle squared is not an angle); unit lists of 3 and 4 members with one member of another dimensionality at every position, over all ordered pairs of representatives; 3 base units x 18 exponents (single exponents at +-2^31 and 2^32 and their neighbours; magnitudes 2^61..2^63 built by nested powers) x 18 product/quotient/power/negation forms, where the exact exponent is computed in 128-bit arithmetic (a refusal is accepted, another exponent or a missing unit is not, and a result beyond i64 must be refused). Oracle: own exponent-vector algebra on the registry dump. Non-trivial = judged (expected dims or expected refusal defined); distinct by query text".into(),
+            rule: "10 binary operators/functions (* / juxtaposition | + - mod hypot atan2 unit-list) x 6 coefficient pairs (a zero coefficient on either or both sides: adding nothing is still an addition) x all ordered pairs of one representative unit per distinct dimensionality of the registry (+ two quoted ad-hoc base units + a dimensionless operand); 32 unary/power/root/function applications (five of them exponents that are machine floats: sqrt(4), sqrt(0.25), sqrt(2), -sqrt(9), sqrt(4) - 2) x {1, -2} coefficient x every unit, base unit and long/prefixed/plural base-unit spelling; both depth-2 shapes x 5x5 operators over an 11-unit core; 6 trigonometric functions x 9 power/reciprocal/product forms (x^-3..x^3, x*x, 1/x, x x x) of every representative unit (an angle squared is not an angle); unit lists of 3 and 4 members with one member of another dimensionality at every position, over all ordered pairs of representatives; 3 base units x 18 exponents (single exponents at +-2^31 and 2^32 and their neighbours; magnitudes 2^61..2^63 built by nested powers) x 18 product/quotient/power/negation forms, where the exact exponent is computed in 128-bit arithmetic (a refusal is accepted, another exponent or a missing unit is not, and a result beyond i64 must be refused). Oracle: own exponent-vector algebra on the registry dump. Non-trivial = judged (expected dims or expected refusal defined); distinct by query text".into(),
             assumptions: vec![
                 "the registry dump (C08 validates it) gives each unit's dimensionality".into(),
                 "exp/ln/log/hyperbolic functions of dimensioned arguments and p/q powers with p != 1 are recorded, not judged (the statement gives no rule)".into(),
